@@ -1,6 +1,7 @@
 mod c04;
 mod c05;
 mod sexp;
+mod slots;
 mod lexutil;
 mod nf;
 mod optable;
@@ -23,6 +24,7 @@ fn main() {
         "c04" => c04::run(&tier, seed),
         "c05" => c05::run(&tier, seed),
         "pipe" => pipe::run(&tier, seed),
+        "slots" => slots::run(&tier, seed),
         "optable" => {
             optable::run();
             return;
